@@ -356,6 +356,7 @@ func runC33(c *Ctx) {
 	hugeLen := false
 	bombAlg := uint16(0)
 	zstdWindow := 0
+	decoderWindow := false
 	var link *simnet.Link
 	var consumedCheck func() bool
 	switch mode {
@@ -458,6 +459,9 @@ func runC33(c *Ctx) {
 			// would drown the client's allocations in the process-wide measurement (for algorithm
 			// ids 2 and 3 the stream is simply not what the id announces: still hostile input)
 			cfg.Byz.CertCompress = zlibCompress(0, 0)
+			// whatever reaches a brotli or zstd decoder - also a stream that is not of that format, or
+			// a mutated one - may make it allocate the window its first bytes announce
+			decoderWindow = cfg.Byz.CertCompAlg == 2 || cfg.Byz.CertCompAlg == 3
 			if bombAlg != 0 {
 				cfg.Byz.CertCompress = bombCompress // declared length stays that of the real message
 			}
@@ -588,7 +592,7 @@ func runC33(c *Ctx) {
 		c.Violate("client-call-returned-after-deadline "+mode, "%s: world ended at %v", c.R.Class, w.Now())
 	}
 	limit := uint64(allocLimit)
-	if bombAlg != 0 || zstdWindow != 0 {
+	if bombAlg != 0 || zstdWindow != 0 || decoderWindow {
 		// a real brotli / zstd decoder allocates its window before the first byte comes out: up to
 		// 16 MiB for brotli (RFC 7932), and for zstd whatever the frame header announces up to the
 		// decoder's cap - 32 MiB (plus a block) is the most a client should grant a certificate
